@@ -11,6 +11,8 @@ for arg in sys.argv[1:]:
         if not m:
             continue
         name = m.group(2)
+        if "build-or-driver-failure" in line:
+            continue  # the scratch worktree disappeared under the run: not a result
         if name not in rows:
             order.append(name)
         rows[name] = "%s  # harness %s" % (m.group(1), commit)
